@@ -1,8 +1,58 @@
 // Package props holds one runtime monitor per property C01..C19.
 package props
 
-import "verif/internal/vf"
+import (
+	"fmt"
+	"os"
+	"os/exec"
+	"path/filepath"
+	"strings"
+
+	"verif/internal/vf"
+)
 
 var Registry = map[string]func(*vf.Run){}
 
 func reg(id string, fn func(*vf.Run)) { Registry[id] = fn }
+
+// runChild re-runs this monitor in a fresh child process with extra environment (a different
+// first-use order, ...) and folds its verdict into r. It does nothing inside a child.
+func runChild(r *vf.Run, label string, env ...string) {
+	if os.Getenv("VERIF_CHILD") != "" || r.OnlyPhase != "" {
+		return
+	}
+	exe, err := os.Executable()
+	if err != nil {
+		r.Inconclusive("cannot locate own executable for child runs: " + err.Error())
+		return
+	}
+	out := filepath.Join(vf.ScratchDir(), "child-"+r.ID+"-"+label)
+	_ = os.MkdirAll(out, 0o755)
+	defer os.RemoveAll(out)
+	cmd := exec.Command(exe, r.ID, r.Tier)
+	cmd.Env = append(append(os.Environ(), "VERIF_CHILD=1", "VERIF_OUT="+out, fmt.Sprintf("VERIF_SEED=%d", r.Seed)), env...)
+	b, err := cmd.CombinedOutput()
+	r.Eval(1)
+	r.Cell("child-process:" + label)
+	code := 0
+	if ee, ok := err.(*exec.ExitError); ok {
+		code = ee.ExitCode()
+	} else if err != nil {
+		r.Inconclusive("child run failed to start: " + err.Error())
+		return
+	}
+	switch code {
+	case 0:
+	case 1:
+		first := "child reported a violation"
+		for _, ln := range strings.Split(string(b), "\n") {
+			if strings.Contains(ln, "violation[") {
+				first = strings.TrimSpace(ln)
+				break
+			}
+		}
+		r.Fail("in-fresh-process:"+label, fmt.Sprintf("fresh process (%s): %s", label, first), map[string]interface{}{"env": env})
+	default:
+		r.Inconclusive(fmt.Sprintf("child run (%s) exited %d", label, code))
+	}
+}
